@@ -211,6 +211,41 @@ def iface_module(d):
     return '\n'.join(out) + '\n'
 
 
+# A HAND-WRITTEN Interface: two macro-generated command sets behind one instrument whose root_node() depends on its state
+# (command 0 of the active set - MODE:B / MODE:A - switches to the other set once it has executed).
+DYNROOT = '''
+#[allow(unused_imports, dead_code, clippy::all)]
+pub mod dynr {
+    use microscpi::{self as scpi, Error, Interface};
+    use crate::rec;
+    pub struct I { pub a: super::moda::I, pub b: super::modb::I, pub in_b: bool }
+    impl scpi::ErrorHandler for I {
+        fn handle_error(&mut self, e: Error) { rec::log_err(e) }
+    }
+    impl Interface for I {
+        fn root_node(&self) -> &'static scpi::Node {
+            if self.in_b { self.b.root_node() } else { self.a.root_node() }
+        }
+        async fn execute_command<'a>(
+            &'a mut self, id: scpi::CommandId, args: &[scpi::Value<'a>], response: &mut impl scpi::Write,
+        ) -> Result<(), Error> {
+            if self.in_b {
+                let r = self.b.execute_command(id, args, response).await;
+                if r.is_ok() && id == 0 { self.in_b = false; }
+                r
+            }
+            else {
+                let r = self.a.execute_command(id, args, response).await;
+                if r.is_ok() && id == 0 { self.in_b = true; }
+                r
+            }
+        }
+    }
+    crate::impl_dut!(D, I, I { a: super::moda::I { }, b: super::modb::I { }, in_b: false }, [64], [16, 32, 64]);
+}
+'''
+
+
 def registry(descs):
     out = ["pub fn make(name: &str) -> Option<Box<dyn crate::dut::Dut>> {", "    match name {"]
     for d in descs:
@@ -229,7 +264,12 @@ def write_gen(descs, path):
     src = "// GENERATED by bin/vlib/geniface.py - do not edit\n"
     for d in descs:
         src += iface_module(d)
-    src += registry(descs)
+    names = {d["name"] for d in descs}
+    if {"moda", "modb"} <= names:
+        src += DYNROOT
+        src += registry(descs).replace("        _ => None,", '        "dynr" => Some(dynr::D::boxed()),\n        _ => None,')
+    else:
+        src += registry(descs)
     try:
         old = open(path).read()
     except OSError:
